@@ -73,6 +73,11 @@ def run_case(case, ses):
                 raise HarnessError('family member with unbounded set: %s' % spec['name'])
     S, Sdefs = semantic(cm, vs)
     name = spec['name']
+    if name.startswith('rand'):
+        r0, _ = ses.solve(P, label=name + '/feasible')
+        if r0 == 'unsat':
+            ses.stats.kinds['skipped-infeasible-member'] = ses.stats.kinds.get('skipped-infeasible-member', 0) + 1
+            return
     iface_cols = sorted(set(cm.iface.values()))
     tolmode = bool(spec.get('tol'))
 
